@@ -4,6 +4,7 @@ import BlockModes.Lemmas.Chunks
 import BlockModes.Lemmas.BlocksCtx
 import BlockModes.Lemmas.SpecBlock
 import BlockModes.Thm.C02
+import BlockModes.Lemmas.Cts
 /-
   C05 — ciphertext stealing follows NIST SP 800-38A Addendum CS1/CS2/CS3 (CBC and ECB).
 
@@ -66,5 +67,41 @@ theorem cts_ecbEnc_eq (C : Cipher) (w : Nat) (blocks : List Bytes) : Cts.ecbEnc 
 theorem cts_ecbDec_eq (C : Cipher) (w : Nat) (blocks : List Bytes) : Cts.ecbDec C w blocks = blocks.map C.dec := by
   unfold Cts.ecbDec
   rw [blocksCtx_eq_fold _ _ _ (fun s ch _ => by cases s; rw [foldBlocks_unit_map]), foldBlocks_unit_map]
+
+/-! ### encryption = the NIST formulation (all six types, current code) -/
+
+/-- **CBC-CS1, CBC-CS2, CBC-CS3**: for every cipher (`C.Valid`), block size, backend width, IV of one block and
+    message of at least one block, the encrypt closure's output is the CBC encryption of the zero-padded
+    message with the penultimate block truncated to `d` bytes, in the variant's ordering; a one-block message
+    is plain CBC. -/
+theorem cbc_cs_enc_refines (v : CsVariant) (C : Cipher) (hC : C.Valid) (w : Nat) (iv m : Bytes)
+    (hiv : iv.length = C.bs) (hm : C.bs ≤ m.length) :
+    C05aux.implCbcEnc v C w iv m = Spec.cbcCsEnc v C iv m := C05aux.cbc_cs_enc_refines v C hC w iv m hiv hm
+
+theorem cbc_cs1_enc_refines (C : Cipher) (hC : C.Valid) (w : Nat) (iv m : Bytes) (hiv : iv.length = C.bs)
+    (hm : C.bs ≤ m.length) : cbcCs1Enc C w iv m = Spec.cbcCsEnc .cs1 C iv m :=
+  C05aux.cbc_cs_enc_refines .cs1 C hC w iv m hiv hm
+theorem cbc_cs2_enc_refines (C : Cipher) (hC : C.Valid) (w : Nat) (iv m : Bytes) (hiv : iv.length = C.bs)
+    (hm : C.bs ≤ m.length) : cbcCs2Enc C w iv m = Spec.cbcCsEnc .cs2 C iv m :=
+  C05aux.cbc_cs_enc_refines .cs2 C hC w iv m hiv hm
+theorem cbc_cs3_enc_refines (C : Cipher) (hC : C.Valid) (w : Nat) (iv m : Bytes) (hiv : iv.length = C.bs)
+    (hm : C.bs ≤ m.length) : cbcCs3Enc false C w iv m = Spec.cbcCsEnc .cs3 C iv m :=
+  C05aux.cbc_cs_enc_refines .cs3 C hC w iv m hiv hm
+
+/-- **ECB-CS1, ECB-CS2, ECB-CS3**: the final block is completed by the stolen tail of the penultimate ciphertext
+    block; same three orderings; a one-block message is raw block encryption. -/
+theorem ecb_cs_enc_refines (v : CsVariant) (C : Cipher) (hC : C.Valid) (w : Nat) (m : Bytes) (hm : C.bs ≤ m.length) :
+    C05aux.implEcbEnc v C w m = Spec.ecbCsEnc v C m := C05aux.ecb_cs_enc_refines v C hC w m hm
+
+theorem ecb_cs1_enc_refines (C : Cipher) (hC : C.Valid) (w : Nat) (m : Bytes) (hm : C.bs ≤ m.length) :
+    ecbCs1Enc C w m = Spec.ecbCsEnc .cs1 C m := C05aux.ecb_cs_enc_refines .cs1 C hC w m hm
+theorem ecb_cs2_enc_refines (C : Cipher) (hC : C.Valid) (w : Nat) (m : Bytes) (hm : C.bs ≤ m.length) :
+    ecbCs2Enc C w m = Spec.ecbCsEnc .cs2 C m := C05aux.ecb_cs_enc_refines .cs2 C hC w m hm
+theorem ecb_cs3_enc_refines (C : Cipher) (hC : C.Valid) (w : Nat) (m : Bytes) (hm : C.bs ≤ m.length) :
+    ecbCs3Enc false C w m = Spec.ecbCsEnc .cs3 C m := C05aux.ecb_cs_enc_refines .cs3 C hC w m hm
+
+/-- the legacy CS3 mirror does *not* satisfy the refinement at `L = bs` (see `legacy_cs3_one_block_defect`);
+    non-vacuity of the hypotheses: the witness cipher is valid and `[5]` is a one-block message. -/
+example : inc.Valid ∧ inc.bs ≤ ([5] : Bytes).length := ⟨inc_valid, by decide⟩
 
 end Thm.C05
